@@ -68,6 +68,14 @@ def specEv : Event → KV.Spec.Mux.Ev
   | .lone seq _ => .ended (wire seq)
   | _ => .other
 
+/-- the events as the second reference monitor reads them: who is waiting in waitResponse -/
+def waitEv : Event → KV.Spec.Mux.WEv
+  | .write _ ok id => .wrote id ok
+  | .take seq => .left (wire seq)
+  | .peekErr seq => .left (wire seq)
+  | .lone seq _ => .noProgress (wire seq)
+  | _ => .other
+
 def showResult (tag : Nat) : Status → String
   | .done (.resp _ f) => s!"{tag}:ok:{f.tag}"
   | .done (.kafkaErr _ _) => s!"{tag}:kafka"
@@ -92,7 +100,7 @@ def handle (stream events tags noPayload impl : String) : String :=
         | some i => s!"reject@{i}:{(commaList events).getD i "?"}"
         | none => "reject"
     -- monitors on what the implementation did: payload tags at the API, and no in-flight id reused on the wire
-    answer model (tagsHold impl && KV.Spec.Mux.idsUnique (es.map specEv))
+    answer model (tagsHold impl && KV.Spec.Mux.idsUnique (es.map specEv) && KV.Spec.Mux.noProgressOnlyAlone (es.map waitEv))
   | _, _, _ => "bad-op"
 
 end Mux
